@@ -214,6 +214,28 @@ def _none_default_copy(init, param, target, where):
     st = hits[0].body[0]
     if not (isinstance(st, ast.Assign) and len(st.targets) == 1 and isinstance(st.targets[0], ast.Name) and st.targets[0].id == param):
         raise TranslateError(f"{where}: `if {param} is None:` does not assign {param}")
+    # nothing else in __init__ may rebind the parameter or mention the module-level table: any other path from the
+    # definition to the connection would make the copy mode read above meaningless
+    for n in ast.walk(init):
+        binds = []
+        if isinstance(n, ast.Assign):
+            binds = [x for t in n.targets for x in ast.walk(t)]
+        elif isinstance(n, (ast.AugAssign, ast.AnnAssign)):
+            binds = list(ast.walk(n.target))
+        elif isinstance(n, ast.NamedExpr):
+            binds = [n.target]
+        elif isinstance(n, (ast.For, ast.AsyncFor)):
+            binds = list(ast.walk(n.target))
+        elif isinstance(n, (ast.With, ast.AsyncWith)):
+            binds = [x for it in n.items if it.optional_vars is not None for x in ast.walk(it.optional_vars)]
+        elif isinstance(n, (ast.Delete,)):
+            binds = [x for t in n.targets for x in ast.walk(t)]
+        if n is not st and any(isinstance(x, ast.Name) and x.id == param for x in binds):
+            raise TranslateError(f"{where}: {param} is rebound outside `if {param} is None:` (line {n.lineno})")
+    uses = [n for n in ast.walk(init) if isinstance(n, ast.Name) and n.id == target]
+    inside = [n for n in ast.walk(st.value) if isinstance(n, ast.Name) and n.id == target]
+    if len(uses) != len(inside):
+        raise TranslateError(f"{where}: {target} is used outside the `if {param} is None:` assignment")
     return _copy_mode(st.value, target, where)
 
 
@@ -558,6 +580,44 @@ def _community_copy(tree):
     return _copy_mode(a[0].value, orig, where)
 
 
+def _dummy_level_facts():
+    """(class attribute `_current_priv_level = DUMMY_PRIV_LEVEL` exists, scrapli writes through that object somewhere)"""
+    rel = "scrapli/driver/network/base_driver.py"
+    tree = _parse(rel)
+    cls = _class(tree, "BaseNetworkDriver", rel)
+    shared = any(isinstance(n, ast.Assign) and len(n.targets) == 1 and isinstance(n.targets[0], ast.Name)
+                 and n.targets[0].id == "_current_priv_level" and isinstance(n.value, ast.Name) and n.value.id == "DUMMY_PRIV_LEVEL"
+                 for n in cls.body)
+    dummy = [n for n in tree.body if isinstance(n, ast.Assign) and len(n.targets) == 1 and isinstance(n.targets[0], ast.Name)
+             and n.targets[0].id == "DUMMY_PRIV_LEVEL"]
+    if len(dummy) != 1:
+        raise TranslateError(f"{rel}: DUMMY_PRIV_LEVEL is not assigned exactly once at module level")
+    written = []
+
+    def through(e):
+        """is `e` the dummy / a connection's current level (or its not_contains)"""
+        t = ast.unparse(e)
+        return t == "DUMMY_PRIV_LEVEL" or t.endswith("._current_priv_level") or t.endswith("_current_priv_level.not_contains") \
+            or t == "DUMMY_PRIV_LEVEL.not_contains"
+    for p in sorted((REPO / "scrapli").rglob("*.py")):
+        r = str(p.relative_to(REPO))
+        for n in ast.walk(_parse(r)):
+            tg = []
+            if isinstance(n, ast.Assign):
+                tg = n.targets
+            elif isinstance(n, (ast.AugAssign, ast.AnnAssign)):
+                tg = [n.target]
+            elif isinstance(n, ast.Delete):
+                tg = n.targets
+            for t in tg:
+                if isinstance(t, (ast.Attribute, ast.Subscript)) and through(t.value):
+                    written.append(f"{r}:{n.lineno}")
+            if isinstance(n, ast.Call) and isinstance(n.func, ast.Attribute) and through(n.func.value) \
+                    and n.func.attr in ("append", "extend", "insert", "remove", "pop", "clear", "sort", "reverse", "__setattr__"):
+                written.append(f"{r}:{n.lineno}")
+    return shared, written
+
+
 def generate():
     tr = _module_consts("scrapli/transport/__init__.py")
     core, aio = tr.get("CORE_TRANSPORTS"), tr.get("ASYNCIO_TRANSPORTS")
@@ -608,5 +668,10 @@ def generate():
         fl.append(f"({lstr(platform)}, {lstrs(fwc)})")
     b += "def corePrivs : List (String × List (String × Level)) := [\n  " + ",\n  ".join(pl) + "]\n\n"
     b += "def coreFwc : List (String × List String) := [\n  " + ",\n  ".join(fl) + "]\n\n"
+    shared, written = _dummy_level_facts()
+    b += ("/-- network/base_driver.py: the class attribute `_current_priv_level = DUMMY_PRIV_LEVEL` exists (one module-level object for\n"
+          "    all connections); places in scrapli/ that write THROUGH that object (attribute / item stores, mutating list calls) -/\n")
+    b += f"def currentLevelIsSharedDummy : Bool := {lbool(shared)}\n"
+    b += f"def dummyLevelWrittenAt : List String := {lstrs(written)}\n\n"
     b += "end Scrapli.Gen.Factory\n"
     return [(OUT, b)]
